@@ -69,7 +69,9 @@ def _replay_chunk(arg):
         inp = case["inp"]
         key = (inp["ff"], fmt)
         if key not in rendered:
-            rendered[key] = u.render_ff(ffs[inp["ff"] - 1], fmt, Path(wd) / ("ff%d_%s" % key), tag="f")
+            # every second force field is followed by an unrelated polyply .itp file (F33, repaired: reading it must not
+            # turn the exclusions sections of the .ff blocks and links into edges)
+            rendered[key] = u.render_ff(ffs[inp["ff"] - 1], fmt, Path(wd) / ("ff%d_%s" % key), tag="f", trailing_itp=inp["ff"] % 2 == 0)
         rng = random.Random(sd * 1000003 + ci)
         lay = u.graph_layout(inp, rng)
         via = "gen_params" if gp_every and ci % gp_every == 0 else "processors"
